@@ -355,10 +355,13 @@ def _decode(config, codec, hex_bitmap, data, strict, res):
     else:
         bits_int = int.from_bytes(bm, 'big')
     dontcare = set()
-    if not (bits_int >> 127) & 1 or bits_int & 1:
-        # bit 1 clear or bit 128 set: outside the documented DE1-127 domain
+    if not (bits_int >> 127) & 1 and strict:
+        # the documented layout has bit 1 set; the lenient reading ignores bit 1 (the bitmap is always 16 bytes)
+        raise _Reject('bit 1 clear')
+    if bits_int & 1:
+        # bit 128 set: element 128 lies outside the documented DE1-127 domain, no exact reading is defined
         if strict:
-            raise _Reject('bit 1 clear or bit 128 set')
+            raise _Reject('bit 128 set')
         dontcare.add('*')
     values = {'MTI': mti}
     pos = 4 + bmlen
